@@ -469,11 +469,41 @@ def _pushed_by_consumer(sl, prog, fn, m, init_bb, cap):
     return coll, subst(vals[1], mp, sl), flag
 
 
+class _WordHelpers:
+    """the slicer, with one more normal form for the iterator algebra: a closure whose result is a call of a private
+    workspace helper that returns a literal array / vector (`|(k, v)| env_args(k, v)` with `fn env_args(k, v) ->
+    [String; 2] { [String::from("--env"), format!("{k}={v}")] }`) returns that literal, in the closure's terms
+    (local workaround: lib/iters applies closures but does not look through helpers in their results)"""
+
+    def __init__(self, sl):
+        self._sl = sl
+
+    def __getattr__(self, k):
+        return getattr(self._sl, k)
+
+    def apply_closure(self, clv, args):
+        r = self._sl.apply_closure(clv, args)
+        return _word_helper_result(self._sl, r) if r is not None else None
+
+
+def _word_helper_result(sl, r):
+    """r, or — when r is a call of a private workspace helper that returns a literal array / vector of words
+    (`env_args(k, v)`) — that literal in the caller's terms"""
+    h = strip(r)
+    if h[0] == 'call':
+        g = sl.prog.fns.get(h[1])
+        if g is not None and g.kind != 'Closure' and g.crate == 'libcnb_test' and (g.ret.startswith('[') or g.ret.startswith('std::vec::Vec<')):
+            r2 = sl.inline_call(r)
+            if r2 is not None and strip(r2)[0] == 'array':
+                return r2
+    return r
+
+
 def xalts(sl, v, depth=0):
     """iters.alts with push-built vectors decomposed: the elements of such a vector are the pushed values, ranging
     over what the filling loop ranges over"""
     out = []
-    for e, fa, fl in iters.alts(sl, v):
+    for e, fa, fl in iters.alts(_WordHelpers(sl), v):
         pm = push_built(sl, fa) if (fa is not None and depth < 4) else None
         if pm is None:
             out.append((e, fa, fl))
@@ -753,6 +783,27 @@ def _vec_local(fn, operand):
     return m if fn.local_ty(m).startswith('std::vec::Vec<') else None
 
 
+_WHOLE_VIEWS = ('::deref', '::as_slice', '::as_ref', '::borrow', '::into_iter', '::iter')
+
+
+def _vec_local_deep(fn, operand):
+    """_vec_local, also through the whole-collection views of a vector (`&words[..]` via deref, `words.iter()`,
+    `words.into_iter()`, `words.as_slice()`): they hand over every element in order"""
+    for _ in range(4):
+        m = _vec_local(fn, operand)
+        if m is not None:
+            return m
+        pl = op_place(operand)
+        l = _through_moves(fn, pl) if pl is not None else None
+        d = fn.whole_defs(l) if l is not None and l > fn.argc else []
+        c = d[0][3] if len(d) == 1 and d[0][0] == 'call' else None
+        if c is None or c.indirect or len(c.args) != 1 or not (c.name or '').endswith(_WHOLE_VIEWS) \
+                or not (c.name or c.full or '').startswith(('<std::vec::Vec<', 'std::vec::Vec::', '<&std::vec::Vec<', 'core::slice::', 'std::slice::', '<&[', '<[')) and 'std::vec::Vec<' not in (c.full or c.name or ''):
+            return None
+        operand = c.args[0]
+    return None
+
+
 def _vec_initial(sl, fn, m):
     """values the vector local m starts with ([] for Vec::new(), the literal's elements for vec![..]), or None"""
     defs = fn.whole_defs(m)
@@ -896,6 +947,7 @@ class _Contribution:
 def elements(sl, fn, v, ftypes):
     """the argv words an iterable argument contributes, in order: [_Contribution]"""
     v0 = strip(norm_iterable(v))
+    v0 = strip(_word_helper_result(sl, v0))
     if v0[0] == 'array':
         return [_Contribution(x, None, []) for x in v0[1]]
     out = []
@@ -1056,8 +1108,14 @@ def argv_model(prog, sl, fn):
         if e.kind == 'ARG':
             items.extend(contributions(e, e.args[1], False))
             continue
-        m = _vec_local(e.call.fn, e.call.args[1]) if len(e.call.args) > 1 else None
+        m = _vec_local_deep(e.call.fn, e.call.args[1]) if len(e.call.args) > 1 else None
         g, mp, via = e.call.fn, e.mapping or {}, []
+        if m is None and len(e.call.args) > 1:
+            # `command_with_args(program, words)`: the sink sits in a private helper that is handed the words as a
+            # parameter — the vector is the one the caller built (the argument at the call site, level by level)
+            lifted = _lift_vec_operand(prog, e)
+            if lifted is not None:
+                g, m, mp = lifted
         while m is not None and (g.path, m) not in vec_effs and _vec_initial(sl, g, m) is None and len(via) < 3:
             # `command.args(self.argv())`: the vector a private helper fills and returns — its contributions are the
             # pushes made during *this* call of the helper, in the conversion's terms
@@ -1102,6 +1160,70 @@ def argv_model(prog, sl, fn):
             if key[1] is None or _word_vector(prog.fns[key[0]], key[1]):
                 items.append(Item('args', [('other', 'words pushed onto a vector that is not handed to Command::args as a whole')], [], None, es[0].call))
     return program, items
+
+
+def _words_source(fn, operand):
+    """what a words operand is, through moves, borrows and the whole-collection views (`deref`, `iter()`, `into_iter()`,
+    `as_slice()`): -> ('vec', local, locals passed) | ('param', local, locals passed) | None"""
+    on_way = set()
+    for _ in range(6):
+        pl = op_place(operand)
+        if pl is None or [p for p in pl[1:] if p != '*']:
+            return None
+        l = pl[0]
+        # step through moves / borrows one at a time, remembering the locals
+        seen = set()
+        while l not in seen:
+            seen.add(l)
+            on_way.add(l)
+            d = fn.whole_defs(l)
+            if l <= fn.argc or len(d) != 1 or d[0][0] != 'stmt':
+                break
+            rv = d[0][3]
+            nxt = op_place(rv['o']) if rv['r'] == 'use' else rv['p'] if rv['r'] == 'ref' else None
+            if nxt is None or [p for p in nxt[1:] if p != '*']:
+                break
+            l = nxt[0]
+        if 1 <= l <= fn.argc:
+            return 'param', l, on_way
+        if fn.local_ty(l).startswith('std::vec::Vec<'):
+            return 'vec', l, on_way
+        d = fn.whole_defs(l)
+        c = d[0][3] if len(d) == 1 and d[0][0] == 'call' else None
+        if c is None or c.indirect or len(c.args) != 1 or not (c.name or '').endswith(_WHOLE_VIEWS):
+            return None
+        n = c.full or c.name or ''
+        if not (n.startswith(('core::slice::', 'std::slice::', '<&[', '<[', '<&mut [')) or 'std::vec::Vec<' in n or 'std::vec::Vec::' in n or (n.startswith('<') and n.endswith('IntoIterator>::into_iter'))):
+            return None
+        operand = c.args[0]
+    return None
+
+
+def _lift_vec_operand(prog, e):
+    """the argument of the sink call of effect e is (a whole view of) a parameter of the private helper the call sits
+    in: follow it to the call sites along e's chain until it names a local vector -> (fn, local, mapping of that
+    level) | None.  The helpers on the way hand on what they were given: nothing borrows the parameter (or a local
+    it passes through) mutably — `args.reverse()`, `args.truncate(1)` in a helper would change the words."""
+    links = [l for l in e.chain if isinstance(l, Link)]
+    g, op = e.call.fn, e.call.args[1]
+    k = len(links)
+    first = True
+    while k >= 0:
+        src = _words_source(g, op)
+        if src is None:
+            return None
+        kind, l, on_way = src
+        if not first and kind == 'vec':
+            return g, l, mp
+        if kind != 'param' or g.kind == 'Closure' or k == 0:
+            return None
+        if any(in_place_users(g, x)[0] or in_place_users(g, x)[1] for x in on_way):
+            return None
+        lk = links[k - 1]
+        if lk.call.indirect or g not in prog.callee_fns(lk.call) or len(lk.call.args) != g.argc:
+            return None
+        op, g, k, mp, first = lk.call.args[l - 1], lk.call.fn, k - 1, (lk.mapping or {}), False
+    return None
 
 
 def _word_vector(fn, m):
@@ -2003,3 +2125,221 @@ def element_payload(sl, v, cfg):
         if fld is not None:
             return (fld,)
     return None
+
+
+# ---------------------------------------------------------------------------------------------------------------
+# Part E (round 5): owners of the temporary copy
+# ---------------------------------------------------------------------------------------------------------------
+HANDING_ON = ('::expect', '::unwrap', '::into', '::from', '::branch', '::unwrap_or_else', '::unwrap_unchecked', '::into_inner')
+_GUARDS = ('tempfile::TempDir', 'tempfile::dir::TempDir', 'libcnb_test::app::AppDir')
+
+
+def guard_owner_types(prog):
+    """-> predicate on type strings: the type is, or has a field that is (transitively, through workspace structs /
+    enums and std generics), the guard of a temporary directory — only such a value can keep the app copy alive"""
+    names = set(_GUARDS)
+    changed = True
+    while changed:
+        changed = False
+        for path, adt in prog.adts.items():
+            if path in names or not path.startswith('libcnb_test::'):
+                continue
+            if any(any(n in (fl.get('ty') or '') for n in names) for v in adt.get('variants', []) for fl in v.get('fields', [])):
+                names.add(path)
+                changed = True
+    return lambda ty: any(n in (ty or '') for n in names)
+
+
+PATH_VIEWS = ('tempfile::TempDir::path', 'tempfile::dir::TempDir::path')
+
+
+def carrier_conversion(prog, sl, fn, v, pc, ty):
+    """a `From<A>` conversion into a carrier *struct* with several fields (`AppDir { path, _guard }`) wraps its
+    argument unchanged when: the argument itself is kept in a field (as it is or as `Some(arg)`), every other field
+    that depends on the argument is the argument's own path (`TempDir::path(arg)`, owned), the remaining fields are
+    empty (`None`), and the accessors of the carrier (`&self -> &Path` methods) read a field that holds the argument or
+    its path.  -> description | None"""
+    kept, views, rest = [], [], []
+    for name, x in v[3]:
+        px = peel(x)
+        if pc.exact(px) == 0:
+            kept.append(name)
+        elif px[0] == 'call' and px[1] in PATH_VIEWS and len(px[2]) == 1 and pc.exact(px[2][0]) == 0:
+            views.append(name)
+        elif pc.mentioned(x):
+            return None
+        elif not is_empty_default(x, prog):
+            return None
+        else:
+            rest.append(name)
+    if not kept:
+        return None
+    arg_ty = fn.args[0] if fn.args else ''
+    pathlike = arg_ty in ('std::path::PathBuf', '&std::path::Path', 'std::ffi::OsString', 'std::string::String')
+    readable = set(views) | (set(kept) if pathlike else set())
+    n = 0
+    for g in carrier_methods(prog, ty):
+        if g.argc == 1 and g.args and g.args[0] == '&' + ty and 'Path' in (g.ret or ''):
+            r = strip(sl.inline_deep(sl.local(g, 0)))
+            while r[0] == 'call' and len(r[2]) == 1 and (r[1].endswith(('::as_path', '::as_ref', '::deref', '::borrow', '::as_deref'))):
+                r = strip(r[2][0])
+            if not (r[0] == 'field' and strip(r[1])[0] == 'param' and r[2] in readable):
+                return None
+            n += 1
+    if not n:
+        return None
+    return 'keeps its argument in %s%s; the path accessor reads it' % (', '.join(kept), (' and its path in ' + ', '.join(views)) if views else '')
+
+
+# ---------------------------------------------------------------------------------------------------------------
+# Part F (round 5): emission order of a collection that is collected into a local vector and sorted before the loop
+# ---------------------------------------------------------------------------------------------------------------
+_SORTS = ('::sort', '::sort_unstable', '::sort_by', '::sort_unstable_by', '::sort_by_key', '::sort_unstable_by_key', '::sort_by_cached_key')
+_REBORROW = ('::deref_mut', '::as_mut_slice', '::as_mut', '::borrow_mut')
+
+
+def in_place_users(fn, m):
+    """(calls that receive a `&mut` to the local m or to its slice — through `deref_mut` / reborrows —, other escapes)"""
+    ptrs, other = set(), []
+    changed = True
+    while changed:
+        changed = False
+        for b in fn.blocks:
+            if b.get('cleanup'):
+                continue
+            for s in b['s']:
+                if s[0] != '=' or len(s[1]) != 1 or s[1][0] in ptrs:
+                    continue
+                rv = s[2]
+                if rv['r'] == 'ref' and rv.get('mut') and ((rv['p'][0] == m and [p for p in rv['p'][1:] if p != '*'] == []) or (rv['p'][0] in ptrs and rv['p'][1:] == ['*'])):
+                    ptrs.add(s[1][0]); changed = True
+                elif rv['r'] == 'use' and op_place(rv['o']) is not None and op_place(rv['o'])[0] in ptrs and len(op_place(rv['o'])) == 1:
+                    ptrs.add(s[1][0]); changed = True
+        for c in fn.calls:
+            if c.dest and len(c.dest) == 1 and c.dest[0] not in ptrs and not c.indirect and (c.name or '').endswith(_REBORROW) and len(c.args) == 1 \
+                    and op_place(c.args[0]) is not None and op_place(c.args[0])[0] in ptrs:
+                ptrs.add(c.dest[0]); changed = True
+    users = []
+    for c in fn.calls:
+        if fn.blocks[c.bb].get('cleanup'):
+            continue
+        hit = [i for i, a in enumerate(c.args) if op_place(a) is not None and op_place(a)[0] in ptrs]
+        if hit and not (c.dest and len(c.dest) == 1 and c.dest[0] in ptrs and (c.name or '').endswith(_REBORROW)):
+            users.append(c)
+    for b in fn.blocks:
+        for s in b['s']:
+            if s[0] == '=' and s[2]['r'] == 'ref' and s[2].get('mut') and s[2]['p'][0] == m and [p for p in s[2]['p'][1:] if p != '*'] != []:
+                other.append('a mutable borrow of part of the vector')
+    return users, other
+
+
+def _proj_of_param(v, clo, index):
+    """projection path of closure parameter `index` that v denotes (references / clones transparent), or None"""
+    path = []
+    v = unconv(strip(v))
+    while v[0] == 'field':
+        path.append(v[2])
+        v = unconv(strip(v[1]))
+    if v[0] == 'param' and v[1] == clo and v[2] == index:
+        return tuple(reversed(path))
+    return None
+
+
+def _sort_key_total(sl, fn, c):
+    """the order established by the sort call c is a total order on the elements' unique part: the whole element or
+    its first component (the key of a map entry).  -> True | reason"""
+    n = c.name or ''
+    if n.endswith(('::sort', '::sort_unstable')):
+        return True
+    if len(c.args) < 2:
+        return 'no comparator'
+    clv = strip(sl.operand(fn, c.args[1]))
+    g = sl.prog.fns.get(clv[1]) if clv[0] == 'closure' else None
+    if g is None:
+        return 'the comparator %s is not a local closure' % vstr(clv)[:40]
+    r = strip(sl.local(g, 0))
+    if n.endswith(('_by_key', '_by_cached_key')):
+        p = _proj_of_param(r, g.path, 1)
+        return True if p in ((), ('0',)) else 'sorted by %s' % vstr(r)[:50]
+    if r[0] == 'call' and r[1].endswith(('::cmp', '::partial_cmp', '::total_cmp')) and len(r[2]) == 2:
+        pa = [(_proj_of_param(x, g.path, 1), _proj_of_param(x, g.path, 2)) for x in r[2]]
+        sides = [(1, a) if a is not None else (2, b) if b is not None else None for a, b in pa]
+        if None not in sides and {sides[0][0], sides[1][0]} == {1, 2} and sides[0][1] == sides[1][1] and sides[0][1] in ((), ('0',)):
+            return True
+    return 'compared by %s' % vstr(r)[:60]
+
+
+_ORDERED_LOCAL = ('std::collections::BTreeMap<', 'std::collections::BTreeSet<')
+
+
+def loop_vector(E, e):
+    """the local vector the innermost MIR loop of effect e ranges over, when that loop is `for x in v` / `for x in &v` /
+    `v.iter()` over a local `v` that one call created (`collect()`): -> (fn, local, Loop) | None"""
+    ms = [(i, L) for i, kind, L, coll in loop_contexts(E, e) if kind == 'mir' and L is not None]
+    if not ms:
+        return None
+    L = ms[-1][1]
+    g = L.fn
+    c = L.next_call
+    pl = op_place(c.args[0]) if c.args else None
+    for _ in range(6):
+        if pl is None:
+            return None
+        m = _through_moves(g, [pl[0]])
+        if m is None or m <= g.argc:
+            return None
+        if g.local_ty(m).startswith(('std::vec::Vec<',) + _ORDERED_LOCAL):
+            d = g.whole_defs(m)
+            return (g, m, L) if len(d) == 1 and d[0][0] == 'call' else None
+        d = g.whole_defs(m)
+        if len(d) != 1 or d[0][0] != 'call':
+            return None
+        ic = d[0][3]
+        if ic.indirect or not (ic.name or '').endswith(('::into_iter', '::iter', '::iter_mut', '::deref', '::as_slice')) or len(ic.args) != 1:
+            return None
+        pl = op_place(ic.args[0])
+    return None
+
+
+def sorted_emission(sl, it):
+    """the contribution `it` is made in a loop over a local vector that was collected and then *sorted* by a total
+    order on the elements (their key), and changed in place by nothing else, before the loop: the emission order is
+    then determined by the contents alone, whatever container the elements came from.
+    -> None (no such vector) | ('ok', description) | ('unknown', reason) | ('bad', reason)"""
+    e, E = getattr(it, 'eff', None), getattr(it, 'E', None)
+    if e is None:
+        return None
+    lv = loop_vector(E, e)
+    if lv is None:
+        return None
+    g, m, L = lv
+    users, other = in_place_users(g, m)
+    if other:
+        return 'unknown', other[0]
+    if g.local_ty(m).startswith(_ORDERED_LOCAL):
+        # collected into an ordered map / set of its own: iterated in key order, whatever the source container
+        d = g.whole_defs(m)[0][3]
+        if users or d.indirect or not (d.name or '').endswith(('::collect', '::from_iter')):
+            return 'unknown', 'the local %s is not simply collected' % g.local_ty(m).split('<')[0]
+        return 'ok', 'collected into a %s before the loop' % g.local_ty(m).split('<')[0].split('::')[-1]
+    sorts = [c for c in users if (c.name or '').endswith(_SORTS) and (c.name or '').startswith(('core::slice::', 'std::slice::', 'alloc::slice::', 'std::vec::'))]
+    rest = [c for c in users if c not in sorts]
+    for c in rest:
+        n = c.name or 'an indirect call'
+        if any(rx.search(n) for rx, _ in DIFFERENT):
+            return 'bad', 'the collected vector is changed in place by %s before it is emitted' % n
+        if not n.endswith(APPENDING):
+            return 'unknown', 'the collected vector is handed to %s before it is emitted' % n
+    if not sorts:
+        return None
+    last = None
+    for c in sorts:
+        if not g.dominates(c.bb, L.header) or g.in_loop(c.bb):
+            return 'unknown', 'the vector is not sorted on every path to the loop'
+        if any(a.bb in g.reachable(c.bb) and a is not c for a in rest):
+            return 'unknown', 'the vector is appended to after it was sorted'
+        ok = _sort_key_total(sl, g, c)
+        if ok is not True:
+            return 'unknown', 'the vector is sorted, but not by the elements / their keys: %s' % ok
+        last = c
+    return 'ok', 'sorted by %s before the loop' % (last.name or '').split('::')[-1]
